@@ -4,8 +4,9 @@
   All step theorems are for EVERY state satisfying the invariant `GSys.GInv` (no reachability
   hypothesis, no bounds) and every input.  `Sys.HandleRow` ("a connection that holds a mailbox handle
   has a side row in that mailbox") is an invariant of reachable states that is not part of `GInv`;
-  it is proved to be one in Props/C05.lean (`C05.handleRow_step`, relative to `GInv` before and after
-  the step) and is taken as an explicit hypothesis where a `close` over a held handle is concerned.
+  it is proved to be one in Props/C05.lean (`C05.handleRow_step`, `C05.handleRow_reach`) and is taken as an
+  explicit hypothesis where a `close` over a held handle is concerned (`C08_close_spec_reach` discharges it
+  for reachable states).
 
   * `C08_close_spec`          exact output and exact post-state of a `close` that passes validation
                               and is not answered `crowded` / IntegrityError
@@ -23,6 +24,7 @@
 -/
 import Wormhole.Inv.MbClaim
 import Wormhole.Inv.Main
+import Wormhole.Props.C05
 
 namespace Wormhole
 namespace C08
@@ -255,6 +257,29 @@ theorem C08_close_frame {d : Chan} (hP : d.PInv) {app mb : String} (hnc : ¬ d.C
   · intro r h; exact ((Chan.mem_dropMailbox_messages d app mb).1 h).1
   · intro n h; exact ((Chan.mem_dropMailbox_nameplates d app mb).1 h).1
   · intro r h; exact ((Chan.mem_dropMailbox_npSides d app mb).1 h).1
+
+/-- `C08_close_spec` for reachable states: both hypotheses on the state (`GInv`, `HandleRow`) are
+    discharged (`GSys.Reach.ginv`, `C05.handleRow_reach`) -/
+theorem C08_close_spec_reach {g : GSys} (hg : g.Reach)
+    {c : Nat} {x : Conn} {m mood : Option String} {app tgt : String}
+    (hc : CloseCase g.sys c x m mood app tgt) (t : Time) (id : Val)
+    (hgo : Proceeds g.sys x app tgt t) :
+    (∃ commits, (∀ e ∈ commits, IsCommit e) ∧
+      (g.sys.step (.recv c t id (.close m mood))).out =
+        .frame c (.ack id) true :: (commits ++ [.frame c .closed true])) ∧
+    (g.sys.step (.recv c t id (.close m mood))).Synced ∧
+    (g.sys.step (.recv c t id (.close m mood))).cfg = g.sys.cfg ∧
+    (g.sys.step (.recv c t id (.close m mood))).findConn c = some (closerUpd x) ∧
+    (g.sys.db.OtherOpen tgt (x.side.getD "") →
+      (g.sys.step (.recv c t id (.close m mood))).db =
+        (closePre g.sys x app tgt t).closeSide tgt (x.side.getD "") mood ∧
+      (g.sys.step (.recv c t id (.close m mood))).conns = closeConns g.sys.conns c ∧
+      (g.sys.step (.recv c t id (.close m mood))).udb = g.sys.udb) ∧
+    (¬ g.sys.db.OtherOpen tgt (x.side.getD "") →
+      (g.sys.step (.recv c t id (.close m mood))).db = g.sys.db.dropMailbox app tgt ∧
+      (g.sys.step (.recv c t id (.close m mood))).conns = closeConnsDel g.sys.conns c app tgt ∧
+      CloseUsage g.sys (g.sys.step (.recv c t id (.close m mood))) app tgt) :=
+  C08_close_spec hg.ginv (C05.handleRow_reach (fun _ h => h.ginv) hg) hc t id hgo
 
 /-! ## C08_alive_while_open -/
 
@@ -632,6 +657,7 @@ end C08
 end Wormhole
 
 #print axioms Wormhole.C08.C08_close_spec
+#print axioms Wormhole.C08.C08_close_spec_reach
 #print axioms Wormhole.C08.C08_close_keeps
 #print axioms Wormhole.C08.C08_close_frame
 #print axioms Wormhole.C08.C08_open_side_stays
